@@ -31,19 +31,38 @@ type mapErr map[string]int
 
 func (e mapErr) Error() string { return "map error" }
 
+// Typed-nil errors: a non-nil error interface whose dynamic value is a nil pointer, slice,
+// map or func. To the traversal they are errors like any other (err != nil).
+type nilPtrErr struct{ code int }
+
+func (e *nilPtrErr) Error() string { return "typed-nil pointer error" }
+
+type funcErr func() string
+
+func (e funcErr) Error() string { return "func error" }
+
+// errKinds is the number of error kinds (see mkErr and delegatedErr).
+const errKinds = 14
+
 // sameErr is interface identity for comparable errors and identity of the underlying
 // storage for the uncomparable kinds (== would panic on them).
 func sameErr(got, want error) bool {
 	switch w := want.(type) {
 	case sliceErr:
 		g, ok := got.(sliceErr)
+		if w == nil {
+			return ok && g == nil
+		}
 		return ok && len(g) == len(w) && len(g) > 0 && &g[0] == &w[0]
 	case mapErr:
 		g, ok := got.(mapErr)
-		return ok && reflect.ValueOf(g).Pointer() == reflect.ValueOf(w).Pointer()
+		return ok && (g == nil) == (w == nil) && reflect.ValueOf(g).Pointer() == reflect.ValueOf(w).Pointer()
+	case funcErr:
+		g, ok := got.(funcErr)
+		return ok && g == nil && w == nil
 	}
 	switch got.(type) {
-	case sliceErr, mapErr:
+	case sliceErr, mapErr, funcErr:
 		return false
 	}
 	return got == want
@@ -56,6 +75,14 @@ func mkErr(kind int64) error {
 		return sliceErr{"a", "b"}
 	case 9:
 		return mapErr{"k": 1}
+	case 10:
+		return (*nilPtrErr)(nil)
+	case 11:
+		return sliceErr(nil)
+	case 12:
+		return mapErr(nil)
+	case 13:
+		return funcErr(nil)
 	}
 	switch kind % 4 {
 	case 0:
@@ -115,8 +142,8 @@ func delegatedErr(kind int64, data []byte, buf *rjson.Buffer) error {
 // inner traversal started by the outer handler on the first container member; the outer
 // handler passes the inner error on unchanged.
 func c09Check(in []byte, kind byte, failAt int, offSel, errKind int64, nested bool, bits uint64, buf *rjson.Buffer) (reached, nontrivial bool, err error) {
-	sentinel := mkErr(errKind % 10)
-	if errKind%10 < 8 {
+	sentinel := mkErr(errKind % errKinds)
+	if errKind%errKinds < 8 {
 		sentinel = mkErr(errKind % 4)
 	}
 	var usedOff int
@@ -125,8 +152,8 @@ func c09Check(in []byte, kind byte, failAt int, offSel, errKind int64, nested bo
 		h.decide = func(k int, key, data []byte) (int, error) {
 			if k == failAt {
 				usedOff = hostileOffset(offSel, data)
-				if errKind%10 >= 4 && errKind%10 < 8 {
-					if de := delegatedErr(errKind%10, data, buf); de != nil {
+				if errKind%errKinds >= 4 && errKind%errKinds < 8 {
+					if de := delegatedErr(errKind%errKinds, data, buf); de != nil {
 						sentinel = de // the handler passes on the library's own error value
 					}
 				}
@@ -167,8 +194,8 @@ func c09Check(in []byte, kind byte, failAt int, offSel, errKind int64, nested bo
 			if ik == failAt {
 				failed = true
 				usedOff = hostileOffset(offSel, idata)
-				if errKind%10 >= 4 && errKind%10 < 8 {
-					if de := delegatedErr(errKind%10, idata, buf); de != nil {
+				if errKind%errKinds >= 4 && errKind%errKinds < 8 {
+					if de := delegatedErr(errKind%errKinds, idata, buf); de != nil {
 						sentinel = de
 					}
 				}
